@@ -81,6 +81,27 @@ def run():
         i = _first(e, lambda x: x.get("ev") == "mem" and x.get("res") == "ok" and x["got"] < x["n"])
         e[i]["got"] = e[i]["n"]
     expect("MemReader/fabricated-length", "Trace_MemReader", evs, m_mem)
+    # AuxvFile: the second instead of the first occurrence of a key was used; a truncated vector not reported
+    evs = core.read_ndjson(os.path.join(core.ROOT, "spec", "selftest_auxv.ndjson"))
+    def m_aux(e):
+        i = _first(e, lambda x: x["obs"]["gate"] in ("a", "b"))
+        e[i]["obs"]["gate"] = "b" if e[i]["obs"]["gate"] == "a" else "a"
+    expect("AuxvFile/first-occurrence", "Trace_AuxvFile", evs, m_aux)
+    def m_aux2(e):
+        i = _first(e, lambda x: x["obs"]["softErr"])
+        e[i]["obs"]["softErr"] = False
+    expect("AuxvFile/truncation-reported", "Trace_AuxvFile", evs, m_aux2)
+    # CpuInfo: the recorded processor count off by one; a missing-field case reported without its soft error
+    evs = core.read_ndjson(os.path.join(core.ROOT, "spec", "selftest_cpuinfo.ndjson"))
+    def m_cpu(e):
+        i = _first(e, lambda x: not x["softErr"])
+        e[i]["got"]["nproc"] += 1
+    expect("CpuInfo/processor-count", "Trace_CpuInfo", evs, m_cpu)
+    def m_cpu2(e):
+        i = _first(e, lambda x: x["softErr"])
+        e[i]["softErr"] = False
+    expect("CpuInfo/soft-error", "Trace_CpuInfo", evs, m_cpu2)
+
     # Ptrace sequence validation: a recorded dump is accepted; the same trace with one detach (or the SIGCONT) removed is not
     def seq(evs, name):
         tf = os.path.join(wd, f"{name}.ndjson")
